@@ -259,6 +259,20 @@ func init() {
 			c.Cell_ = fmt.Sprintf("refused-between m%d %s", mode, strings.TrimSpace(refusedStmts[i%len(refusedStmts)]))
 			cases = append(cases, c)
 		}
+		// statements whose operand list is empty or that emit nothing (an empty string, only empty strings, RESB 0, ALIGNB 1, an
+		// instruction without operands) right behind statements that have operands: nothing of the neighbour may leak into them
+		degenerate := []string{"\tDB \"\"", "\tDB \"\",\"\"", "\tRESB 0", "\tALIGNB 1", "\tHLT", "\tNOP", "\tDB \"\",1", "\tDB 2,\"\"", "\tDW 0", "\tDD 0"}
+		for i := 0; i < 6*len(degenerate); i++ {
+			mode := 16 + 16*(i%2)
+			c := &ConcatCase{Mode: mode}
+			d := degenerate[(i/2)%len(degenerate)]
+			c.Parts = [][]PStmt{poolSeq(r, mode, 1, 3), {PStmt{K: "raw", Text: d}}, poolSeq(r, mode, 1, 3)}
+			if i%4 >= 2 {
+				c.Parts = append(c.Parts, []PStmt{{K: "raw", Text: degenerate[(i/4)%2]}})
+			}
+			c.Cell_ = fmt.Sprintf("degenerate m%d %s", mode, strings.TrimSpace(d))
+			cases = append(cases, c)
+		}
 		// statements that share an operand text (the same memory operand, with and without displacement, as the r/m operand of
 		// different registers and opcode extensions; the same immediate; the same register): each one alone against all in a row
 		nshare := 400
@@ -293,7 +307,7 @@ func init() {
 		}
 		rep.Rule = "seeded label-free, position-independent statement sequences A,B(,C) from the clean pool (instructions of every supported form, DB/DW/DD, RESB), one mode per program; " +
 			"A, B, C and A;B;C are assembled separately by the real pipeline and out(A;B;C) must equal out(A)++out(B)++out(C) (pairs, triples, and a single statement inserted at every position of 20-statement programs); " +
-			"the same for 2-5 statements sharing one operand text (the same memory operand with and without displacement as r/m of different registers and opcode extensions), each alone against all in a row; the same with a statement gosk refuses (12 kinds) inserted between two sequences, the second of which may start with the statement the first ended with; the same with a RESB of 64 KiB, 128 KiB, 192 KiB -6..+2 bytes as A, so that B stands at every alignment around those offsets of the image; non-trivial = all parts accepted without refusal; distinct = (shape, mode, kind of the first statement of B) cells"
+			"the same for 2-5 statements sharing one operand text (the same memory operand with and without displacement as r/m of different registers and opcode extensions), each alone against all in a row; statements with an empty operand list or no bytes (DB of empty strings, RESB 0, ALIGNB 1, operand-less instructions) between such sequences; the same with a statement gosk refuses (12 kinds) inserted between two sequences, the second of which may start with the statement the first ended with; the same with a RESB of 64 KiB, 128 KiB, 192 KiB -6..+2 bytes as A, so that B stands at every alignment around those offsets of the image; non-trivial = all parts accepted without refusal; distinct = (shape, mode, kind of the first statement of B) cells"
 		outs := RunCases(env, cases)
 		for i := 0; i < 3 && i < len(cases); i++ {
 			c := cases[i].(*ConcatCase)
